@@ -12,6 +12,7 @@ Streams
   direct       seeded random op sequences on Environment / InferenceStateSubprocess objects
                (new, query with echo / really raising helper functions, drop, get_sys_path)
   trunc-cuts   a reply cut at many byte offsets
+  first-handshake  Environment(proxy) whose very first request is hit: InvalidPythonEnvironment, reaped
 Every case is executed on the real jedi (worker process, own Environment), checked by the
 property oracles (exception types, one failure per death, recovery answers, hang watchdog,
 zombies, pipe ends, helper-side ids subset of live used ids), then replayed by the Gallina
@@ -702,6 +703,83 @@ def gen_trunc_cuts(ctx, tmp):
     return cases
 
 
+
+def run_first(case):
+    """Worker entry for the FIRST handshake of an environment: Environment(proxy) with a fault
+    on request 0 of generation 1."""
+    tmp = os.path.join(case['tmp'], 'w%d' % os.getpid())
+    os.makedirs(tmp, exist_ok=True)
+    ctl = os.path.join(tmp, 'ctl.json')
+    for f in (ctl + '.gen', ctl + '.log'):
+        if os.path.exists(f):
+            os.unlink(f)
+    with open(ctl, 'w') as f:
+        json.dump({'states': True, 'log': ctl + '.log', 'faults': {str(g): v for g, v in case['faults'].items()}}, f)
+    os.environ['C14_CTL'] = ctl
+    gc.collect()
+    f0, kids0, thr0 = nfds(), {p for p, _ in child_procs()}, threading.active_count()
+    from jedi.api.environment import Environment
+    old = signal.signal(signal.SIGALRM, _on_alarm)
+    signal.alarm(OP_TIMEOUT)
+    env, code, txt = None, 0, None
+    try:
+        env = Environment(PROXY)
+    except BaseException as e:
+        code = classify(e)
+        txt = '%s.%s: %s' % (type(e).__module__, type(e).__name__, str(e)[:200].replace('\n', ' | '))
+        e = None
+    finally:
+        signal.alarm(0)
+        signal.signal(signal.SIGALRM, old)
+    gc.collect()
+    procs = [(p, st) for p, st in child_procs() if p not in kids0]
+    z = sum(1 for _, st in procs if st == 'Z')
+    fds = nfds() - f0
+    out = dict(case=case, code=code, exc=txt, zombies=z, fds=fds, procs=procs)
+    env = None
+    gc.collect()
+    out['left'] = dict(procs=[(p, st) for p, st in child_procs() if p not in kids0], fds=nfds() - f0,
+                       threads=threading.active_count() - thr0)
+    return out
+
+
+def gen_first(ctx, tmp):
+    cases = [dict(stream='first-handshake', tmp=tmp, faults={}), dict(stream='first-handshake', tmp=tmp, faults={1: [0, 'raise', 0]})]
+    for ph in CRASH3:
+        for cut in ([0.5] if ph != 'trunc' else ([1, 0.5, -1] if ctx.quick else [0, 1, 2, 5, 0.25, 0.5, 0.75, -2, -1])):
+            cases.append(dict(stream='first-handshake', tmp=tmp, faults={1: [0, ph, cut]}))
+    return cases
+
+
+def evaluate_first(ctx, results):
+    cases = []
+    for r in results:
+        sched = ['(%d%%N, %d%%N, %s)' % (int(g), int(v[0]), FAULT_G[v[1]]) for g, v in r['case']['faults'].items()]
+        cases.append('(%s, (%d%%N, %d%%N, %d%%N))' % (common.g_list(sched, str, 'N * N * fault'), r['code'], r['zombies'],
+                                                     max(0, r['fds'])))
+    fails, err = common.coq_failing(IMPORTS, 'check_start', cases)
+    if err:
+        raise RuntimeError('coq evaluation failed (first-handshake): ' + err)
+    for i, r in enumerate(results):
+        crash = any(v[1] in CRASH3 for v in r['case']['faults'].values())
+        ctx.count('first-handshake', json.dumps(r['case']['faults'], sort_keys=True), nontrivial=crash)
+        data = {k: v for k, v in r.items() if k != 'case'}
+        data['case'] = {k: v for k, v in r['case'].items() if k != 'tmp'}
+        bad = None
+        if crash and r['code'] != 3:
+            bad = 'first-handshake-death-not-InvalidPythonEnvironment'
+        elif not crash and r['code'] != 0:
+            bad = 'environment-creation-fails-without-a-crash'
+        elif r['zombies'] or r['fds'] != (0 if crash else 3):
+            bad = 'first-handshake-not-reaped'
+        elif r['left']['procs'] or r['left']['fds'] or r['left']['threads']:
+            bad = 'not-released-at-end'
+        if bad:
+            ctx.deviation(dict(cls=bad, model_agrees=i not in fails), data, 'C14 %s' % bad)
+        elif i in fails:
+            ctx.violation('obligation', dict(what='correspondence C14 start_env: model and Environment(...) differ on the first handshake',
+                                             **data), nofail=True)
+
 # ---------------------------------------------------------------------------- run
 def _slim(res, keep_wire=True):
     """A JSON-able, readable rendering of a result for replay files."""
@@ -741,7 +819,7 @@ def evaluate(ctx, results):
             ctx.deviation(sig, dict(finding=f, **_slim(res, keep_wire=len(res['records']) < 60)),
                           'C14 %s: %s' % (f['cls'], {k: v for k, v in f.items() if k != 'cls'}))
         if not agrees and not found:
-            model = common.coq_show(IMPORTS, ["let '(sch, ops, obs, wobs) := %s in run_obs true (sched_of sch) init ops" % cases[i]])
+            model = common.coq_show(IMPORTS, ["let '(sch, ops, obs, wobs) := %s in run_obs true true (sched_of sch) init ops" % cases[i]])
             ctx.violation('obligation', dict(
                 what='correspondence C14_Protocol: the model does not predict what jedi did (per-operation outcome / '
                      'helper generation / crash flag / zombies / pipe ends, or the wire log with the helper-side ids); '
@@ -792,6 +870,8 @@ def run(ctx):
     t = time.time()
     results = common.pmap(run_program, [cases[i] for i in order], chunksize=1, timeout=6 * 3600)
     ctx.stat('wall_execute', round(time.time() - t, 1))
+    if not only or 'first-handshake' in only.split(','):
+        evaluate_first(ctx, common.pmap(run_first, gen_first(ctx, tmp), chunksize=1, timeout=6 * 3600))
     t = time.time()
     good, nfaulted = evaluate(ctx, results)
     ctx.stat('wall_model', round(time.time() - t, 1))
@@ -827,6 +907,10 @@ def replay(ctx, path):
         return 0
     common.setup_jedi(os.path.join(ctx.tmp, 'cache'))
     case = dict(case, tmp=ctx.tmp, faults={int(g): v for g, v in case['faults'].items()})
+    if case.get('stream') == 'first-handshake':
+        r = common.pmap(run_first, [case])[0]
+        print('--- implementation now:', {k: v for k, v in r.items() if k != 'case'})
+        return 0
     res = common.pmap(run_program, [case])[0]
     if 'fatal' in res:
         print(res['fatal'])
@@ -839,6 +923,6 @@ def replay(ctx, path):
     print('--- oracle:', oracle(res))
     g = g_case(res)
     print('--- model (per-operation tuples, wire):')
-    print(common.coq_show(IMPORTS, ["let '(sch, ops, obs, wobs) := %s in run_obs true (sched_of sch) init ops" % g,
+    print(common.coq_show(IMPORTS, ["let '(sch, ops, obs, wobs) := %s in run_obs true true (sched_of sch) init ops" % g,
                                     'check_case %s' % g]))
     return 0
